@@ -238,8 +238,30 @@ fn run_check(prop: &str, tier: Tier) -> i32 {
         let (_, h2) = framework::run_one(exe, sub, tier, idx, info.hang_secs.max(20));
         let inner: Vec<&String> = l1.iter().filter(|l| l.starts_with("V\t")).collect();
         if h1 == "ok" && h2 == "ok" && inner.is_empty() {
-            eprintln!("MACHINERY: worker died ({what}) at case {idx} of {sub} but the case passes alone");
-            return 2;
+            // The case is innocent on its own. A worker killed by a memory fault signal was then brought
+            // down by the cases before it (heap corruption that surfaces later): that is a crash of the
+            // code under test, attributed to the shard. Anything else is a machinery problem.
+            let fault = ["signal 11", "signal 6", "signal 7", "signal 4"].contains(&what.as_str());
+            if !fault {
+                eprintln!("MACHINERY: worker died ({what}) at case {idx} of {sub} but the case passes alone");
+                return 2;
+            }
+            vcount += 1;
+            let shard = c.int("shard").unwrap_or(0);
+            let nshards = c.int("nshards").unwrap_or(1);
+            let j = c
+                .clone()
+                .set("property", prop)
+                .set("kind", "shard")
+                .set("key", format!("{prop}|shard|{sub}|{}|{shard}/{nshards}", tier.name()))
+                .set("class", "crash-unattributed")
+                .set("exe_profile", exe.rsplit('/').nth(1).unwrap_or("release"))
+                .set("detail", format!("worker for shard {shard}/{nshards} died with {what} while on case {idx}; the case passes alone, so an earlier case of the shard corrupted memory"));
+            let path = write_replay(&replay_dir, &j);
+            println!("VIOLATION property={prop} replay={path}");
+            printed += 1;
+            exit = 1;
+            continue;
         }
         vcount += 1;
         let j = c
